@@ -168,8 +168,29 @@ def RealVar(name):
     return z3.Real(name)
 
 
+def _concrete_range(lo, hi, limit=64):
+    """range(lo, hi) when both bounds are numerals (python ints or z3 integer values) and the range is small."""
+    def num(x):
+        if isinstance(x, bool):
+            return None
+        if isinstance(x, int):
+            return x
+        if isinstance(x, z3.ExprRef):
+            x = z3.simplify(x)
+            if z3.is_int_value(x):
+                return x.as_long()
+        return None
+    a, b = num(lo), num(hi)
+    if a is None or b is None or b - a > limit:
+        return None
+    return list(range(a, b))
+
+
 def AllIdx(lo, hi, f, name="i"):
     """forall lo <= i < hi. f(i)   -- symbolic: quantifier; concrete: loop."""
+    c = _concrete_range(lo, hi)
+    if c is not None and (_sym(lo, hi) or any(_sym(f(z3.IntVal(i))) for i in c[:1])):
+        return z3.And(*[_b(f(z3.IntVal(i))) for i in c]) if c else z3.BoolVal(True)
     if _sym(lo, hi):
         i = z3.Int(ty.fresh_name(name))
         return z3.ForAll([i], z3.Implies(z3.And(_n(lo) <= i, i < _n(hi)), _b(f(i))))
@@ -177,6 +198,9 @@ def AllIdx(lo, hi, f, name="i"):
 
 
 def AnyIdx(lo, hi, f, name="i"):
+    c = _concrete_range(lo, hi)
+    if c is not None and (_sym(lo, hi) or any(_sym(f(z3.IntVal(i))) for i in c[:1])):
+        return z3.Or(*[_b(f(z3.IntVal(i))) for i in c]) if c else z3.BoolVal(False)
     if _sym(lo, hi):
         i = z3.Int(ty.fresh_name(name))
         return z3.Exists([i], z3.And(_n(lo) <= i, i < _n(hi), _b(f(i))))
